@@ -205,6 +205,18 @@ def value_sweep(tier):
         yield {"calls": [["from", T], ["select", [["valnp", 424242], fa]], ["where", ["in", fa, [raw(v), ["valnp", 424242]]]]]}
         yield {"calls": [["from", T], ["select", [["coalesce", [fa, raw(v)]], ["case", [[["cmp", "=", fa, raw(v)], raw(v)]], raw(v)]]]]}
         yield {"calls": [["from", T], ["select", [fa]], ["where", ["cmp", "=", fa, raw(v)]], ["union", {"calls": [["from", U], ["select", [ux]], ["where", ["cmp", "=", uy, raw(v)]]]}]]}
+    # boundary values of the row-limiting calls (zero, equal to each other, equal to a constant elsewhere in the statement)
+    for lim, off in itertools.product([None, 0, 1, 5], [None, 0, 5]):
+        if lim is None and off is None:
+            continue
+        page = ([["limit", lim]] if lim is not None else []) + ([["offset", off]] if off is not None else [])
+        yield {"calls": [["from", T], ["select", [fa]], ["where", ["cmp", "=", fa, raw(5)]]] + page}
+        yield {"calls": [["from", T], ["select", [fa]], ["where", ["cmp", "=", fa, raw(0)]]] + page[::-1]}
+        yield {"calls": [["from", T], ["select", [fa]], ["union", {"calls": [["from", U], ["select", [ux]], ["where", ["cmp", "=", uy, raw(5)]]]}]] + page}
+        yield {"calls": [["from", T], ["select", [fa]], ["where", ["insub", fa, {"calls": [["from", U], ["select", [ux]], ["orderby", [ux], "asc"]] + page}]],
+                         ["limit", 5]]}
+    for a, b in ((0, 0), (0, 3), (0, None), (None, 0), (3, 3)):
+        yield {"calls": [["from", T], ["select", [fa]], ["where", ["cmp", "<", fa, raw(3)]], ["slice", a, b]]}
     yield {"calls": [["from", T], ["select", [["array", [raw(1), raw("a")]], ["json", ["$dict", [["k", 1]]]], ["interval", {"days": 1}]]]]}
     yield {"calls": [["from", T], ["select", [fa]], ["where", ["cmp", "=", fb, raw(["$list", [1, None, "x"]])]]]}
     yield {"calls": [["from", T], ["select", [["array", [raw(1), ["null"]]], ["array", [raw(["$list", [1, 2]]), raw(["$list", [3, None]])]]]]]}
